@@ -54,6 +54,7 @@ type vResult struct {
 	Switches   int            `json:"switch_pairs"`
 	Tape       []uint32       `json:"tape,omitempty"`
 	TapeLen    int            `json:"tape_len"`
+	TapeHash   string         `json:"tape_hash"`
 	Trace      []string       `json:"trace,omitempty"`
 	Detail     []string       `json:"detail,omitempty"`
 }
@@ -159,7 +160,17 @@ func vRunJob(t *testing.T, job *vJob, tmpRoot string) *vResult {
 			rc.w = verifsim.NewWorld(tape)
 			rc.w.TraceOn = job.Trace
 			defer rc.w.Close()
-			fn(rc)
+			func() {
+				defer func() {
+					if r := recover(); r != nil {
+						buf := make([]byte, 1<<14)
+						n := runtime.Stack(buf, false)
+						res.Class = "error"
+						res.Msg = "harness panic: " + fmt.Sprint(r) + "\n" + string(buf[:n])
+					}
+				}()
+				fn(rc)
+			}()
 			res.Steps = rc.w.Steps
 			res.SimMs = rc.w.Now().Milliseconds()
 			res.TraceHash = rc.w.TraceHash()
@@ -180,6 +191,13 @@ func vRunJob(t *testing.T, job *vJob, tmpRoot string) *vResult {
 	runtime.GC()
 	res.WallUs = time.Since(start).Microseconds()
 	res.TapeLen = len(tape.Rec)
+	{
+		var h uint64 = 1469598103934665603
+		for _, v := range tape.Rec {
+			h = (h ^ uint64(v)) * 1099511628211
+		}
+		res.TapeHash = fmt.Sprintf("%016x", h)
+	}
 	if res.Class == "violation" || job.Trace || job.Replay {
 		res.Tape = tape.Rec
 	}
